@@ -43,7 +43,9 @@ class TransactionBackend(Backend):
         expire_group = {}
         for key, (expire, value) in self._local_cache.store.items():
             if expire:
-                expire = int(expire - time.time())
+                expire = expire - time.time()  # the remaining lifetime, sub-second part included
+                if expire <= 0:
+                    continue
             expire_group.setdefault(expire, {})[key] = value
 
         for expire, kv in expire_group.items():
@@ -68,14 +70,10 @@ class TransactionBackend(Backend):
         expire: float | None = None,
         exist: bool | None = None,
     ) -> bool:
-        if (
-            exist is not None
-            and await self._backend.exists(key) is not exist
-            and await self._local_cache.exists(key) is not exist
-        ):
+        if exist is not None and await self.exists(key) is not exist:
             return False
         self._to_delete.discard(key)
-        return await self._local_cache.set(key, value, expire, exist)
+        return await self._local_cache.set(key, value, expire)
 
     async def set_many(self, pairs: Mapping[Key, Value], expire: float | None = None):
         self._to_delete.difference_update(pairs.keys())
@@ -103,12 +101,13 @@ class TransactionBackend(Backend):
             self._to_delete.add(key)
 
     async def expire(self, key: Key, timeout: float):
+        if await self._local_cache.exists(key):
+            return await self._local_cache.expire(key, timeout)
         if self._key_is_delete(key):
             return
         value = await self._backend.get(key, default=_empty)
-        if value is _empty:
-            return await self._local_cache.expire(key, timeout)
-        await self._local_cache.set(key, value, expire=timeout)
+        if value is not _empty:
+            await self._local_cache.set(key, value, expire=timeout)
 
     # non transaction - proxy methods with custom logic
     async def get(self, key: str, default: Value | None = None) -> Value:
